@@ -196,11 +196,22 @@ impl ToPrimitiveExt for %(p)s {
     return ''.join(out)
 
 
+def gen_checked_neg():
+    out = []
+    for p in ['u8', 'u16', 'u32', 'u64', 'u128', 'i8', 'i16', 'i32', 'i64', 'i128']:
+        if p.startswith('u'):
+            ens = 'ret == (if v == 0 { Some(0%s) } else { None::<%s> })' % (p, p)
+        else:
+            ens = 'ret == (if v == %s::MIN { None::<%s> } else { Some((-(v as int)) as %s) })' % (p, p, p)
+        out.append('pub assume_specification [%s::checked_neg] (v: %s) -> (ret: Option<%s>)\n    ensures %s;\n' % (p, p, p, ens))
+    return ''.join(out)
+
+
 def generate():
     base = open(os.path.join(ROOT, 'spec', 'shim_base.rs'), encoding='utf-8').read()
     marker = '// @@GENERATED-OPS@@'
     assert marker in base
-    return base.replace(marker, gen_ops() + gen_from() + gen_prim_traits())
+    return base.replace(marker, gen_ops() + gen_from() + gen_prim_traits() + gen_checked_neg())
 
 
 if __name__ == '__main__':
